@@ -14,6 +14,8 @@ import (
 	"sort"
 	"strings"
 	"time"
+	"unicode"
+	"unicode/utf8"
 
 	"golang.org/x/tools/go/ssa"
 )
@@ -191,6 +193,33 @@ func buildIntrinsics() map[string]intrinsic {
 	m["strings.EqualFold"] = str2(func(e *Exec, a, b *StrV) Value {
 		if a.C != nil && b.C != nil {
 			return cbool(strings.EqualFold(*a.C, *b.C))
+		}
+		// one side concrete and valid UTF-8: exact regular expression over bytes - every rune may be replaced
+		// by any member of its simple-folding orbit (unicode.SimpleFold), e.g. k ~ K ~ U+212A
+		for _, pr := range [][2]*StrV{{a, b}, {b, a}} {
+			if cs, sy := pr[0], pr[1]; cs.C != nil && sy.C == nil && utf8.ValidString(*cs.C) {
+				e.stub("model:strings.EqualFold(concrete operand: exact folding-orbit regexp)")
+				if *cs.C == "" {
+					return &BoolV{T: "(= " + sy.T + " \"\")"}
+				}
+				var parts []string
+				for _, r := range *cs.C {
+					alts := []string{"(str.to_re " + smtStr(string(r)) + ")"}
+					for f := unicode.SimpleFold(r); f != r; f = unicode.SimpleFold(f) {
+						alts = append(alts, "(str.to_re "+smtStr(string(f))+")")
+					}
+					if len(alts) == 1 {
+						parts = append(parts, alts[0])
+					} else {
+						parts = append(parts, "(re.union "+strings.Join(alts, " ")+")")
+					}
+				}
+				re := parts[0]
+				if len(parts) > 1 {
+					re = "(re.++ " + strings.Join(parts, " ") + ")"
+				}
+				return &BoolV{T: "(str.in_re " + sy.T + " " + re + ")"}
+			}
 		}
 		e.stub("model:strings.EqualFold(ASCII via lower)")
 		return &BoolV{T: "(= " + e.lowerTerm(a) + " " + e.lowerTerm(b) + ")"}
@@ -710,6 +739,13 @@ func (e *Exec) replaceAllAtom(p *StrV, old, nw string) *StrV {
 	key := "repl#" + p.T + "#" + old + "#" + nw
 	if v, ok := e.lazyMemo[key]; ok {
 		return v.(*StrV)
+	}
+	// case split: when the string cannot (or on this side of the fork does not) contain the pattern the result
+	// is the string itself and no replace_all term reaches the solver (z3 answers unknown at once on
+	// replace_all combined with regular-expression constraints)
+	if !e.branch(&BoolV{T: "(str.contains " + p.T + " " + smtStr(old) + ")"}) {
+		e.lazyMemo[key] = p
+		return p
 	}
 	r := e.fresh("repl", "String")
 	e.assume("(= " + r + " (str.replace_all " + p.T + " " + smtStr(old) + " " + smtStr(nw) + "))")
